@@ -205,6 +205,13 @@ class Adapter(EnvAdapter):
     props = ("C01", "C03", "C04", "C05", "C08", "C09", "C10", "C11", "C12", "C17")
 
     def configs(self, tier):
+        # time-limit sweep ("for every value passed", C11): one surviving episode per value, no probes
+        from harness.envs.base import T_SWEEP_QUICK_FEW, T_SWEEP_THOROUGH_FEW
+
+        ts = T_SWEEP_QUICK_FEW if tier == "quick" else T_SWEEP_THOROUGH_FEW
+        return self._base_configs(tier) + [_c(f"n3_t{t}_sweep", "random_walk", 3, 20, tl=t, episodes=1, max_steps=t + 2, policies=["survive"], probe_every=0, props=["C03", "C11"]) for t in ts]
+
+    def _base_configs(self, tier):
         if tier == "quick":
             return [
                 _c("default5", "default", 5, episodes=2, max_steps=24, policies=["random", "mostly_masked"]),
